@@ -54,3 +54,14 @@ def c03_crlf_in_csv_cell(sc, rec):
     d = rec.get('detail') or {}
     return (rec.get('clause') == 'roundtrip:values' and rec.get('key') == 'string' and bool(d.get('crlf_to_lf'))
             and ((sc or {}).get('opts') or {}).get('format', 'csv') == 'csv')
+
+
+def c11_count_with_name_counts_nulls(sc, rec):
+    """A `count` aggregate given an explicit source field `name` returns the number of all matching source rows
+    although the documentation says it counts the non-null values of that field (the check assigns the key
+    'counts-nulls' only when the observed value equals the count of all matching rows and nothing else differs)."""
+    d = rec.get('detail') or {}
+    if rec.get('clause') != 'aggregate:count' or rec.get('key') != 'counts-nulls' or not d.get('counts_all'):
+        return False
+    f = (((sc or {}).get('spec') or {}).get('fields') or {}).get(d.get('field')) or {}
+    return f.get('aggregate') == 'count' and 'name' in f
